@@ -90,7 +90,14 @@ func c19(w *World) {
 		return d
 	}
 	regPos := map[int]int{} // handler id -> position in registration order
+	// two registrations may come from different tasks (from inside a dispatch and from the late-
+	// registration task): taking the position and registering with the library must be one step,
+	// or the model's order and the library's can differ (a false alarm of this oracle once, in the
+	// thorough tier under the priority policy)
+	var regMu simrt.Mutex
 	regOut := func(d *hdef) {
+		regMu.Lock()
+		defer regMu.Unlock()
 		regPos[d.id] = len(regPos)
 		mt := d.typ
 		if d.all {
@@ -121,6 +128,8 @@ func c19(w *World) {
 		})
 	}
 	regIn := func(d *hdef) {
+		regMu.Lock()
+		defer regMu.Unlock()
 		regPos[d.id] = len(regPos)
 		mt := d.typ
 		if d.all {
